@@ -14,6 +14,11 @@ import subprocess
 import sys
 
 
+def _rt(spec, tier):
+    rt = spec["run_timeout"]
+    return rt[tier] if isinstance(rt, dict) else rt
+
+
 def digests(machine, prop, tier, seed, indices):
     from ..engine import get_machine, run_seed
     mach = get_machine(machine)
@@ -34,9 +39,59 @@ def child(argv):
     return 0
 
 
+def sensitivity(argv):
+    """Apply each catalogued mutation to a scratch copy and demand that the check reports it
+    and that the replay file it wrote reproduces in a fresh process."""
+    import glob
+    import shutil
+    import tempfile
+    from .mutants import CATALOGUE
+    only = argv[argv.index("--only") + 1] if "--only" in argv else None
+    here = os.path.dirname(os.path.dirname(os.path.dirname(os.path.abspath(__file__))))
+    check = os.path.join(here, "check")
+    repo = os.path.realpath(os.environ.get("VERIF_REPO", "/repo"))
+    ok = True
+    caught = 0
+    for n, (prop, rel, old, new, runs) in enumerate(CATALOGUE):
+        if only and prop != only:
+            continue
+        d = tempfile.mkdtemp(prefix="simbib_mut_")
+        try:
+            shutil.copytree(os.path.join(repo, "bibtexparser"), os.path.join(d, "bibtexparser"))
+            path = os.path.join(d, rel)
+            src = open(path).read()
+            if src.count(old) != 1:
+                print(f"SELFTEST-FAIL sensitivity #{n} {prop} {rel}: pattern occurs {src.count(old)} times (catalogue out of date)")
+                ok = False
+                continue
+            open(path, "w").write(src.replace(old, new))
+            env = dict(os.environ, VERIF_REPO=d, VERIF_REPLAY_DIR=os.path.join(d, "replays"))
+            r = subprocess.run([check, prop, "--no-evidence", "--runs", str(runs)], env=env, capture_output=True, text=True, timeout=1800)
+            lines = [l for l in r.stdout.splitlines() if l.startswith("VIOLATION")]
+            if r.returncode != 1 or not lines:
+                print(f"SELFTEST-FAIL sensitivity #{n} {prop} {rel}: mutant survived {runs} runs (exit {r.returncode}): {new[:70]!r}")
+                ok = False
+                continue
+            rp = lines[0].split("replay=")[1].strip()
+            r2 = subprocess.run([check, prop, "--replay", rp], env=env, capture_output=True, text=True, timeout=600)
+            if r2.returncode != 1:
+                print(f"SELFTEST-FAIL sensitivity #{n} {prop}: replay {os.path.basename(rp)} did not reproduce in a fresh process (exit {r2.returncode})")
+                ok = False
+                continue
+            caught += 1
+            sig = next((l for l in r.stdout.splitlines() if l.startswith("violation:")), "")[:110]
+            print(f"sensitivity #{n} {prop} caught + replayed: {sig}")
+        finally:
+            shutil.rmtree(d, ignore_errors=True)
+    print(f"selftest sensitivity: {caught} mutants caught;", "ok" if ok else "FAILED")
+    return 0 if ok else 2
+
+
 def main(argv):
     if argv and argv[0] == "--child":
         return child(argv[1:])
+    if "--sensitivity" in argv:
+        return sensitivity(argv)
     setup = "--setup" in argv
     n = 40 if setup else 200
     if "--n" in argv:
@@ -72,8 +127,8 @@ def main(argv):
             if not setup and (machine, tier) not in seen:
                 seen.add((machine, tier))
                 ex = dict(spec["extra"])
-                c1, s1 = engine.run_check(prop, machine, tier, seed, 600, 50, 600, spec["run_timeout"], ex, workers=1, write_evidence=False, quiet=True)
-                c2, s2 = engine.run_check(prop, machine, tier, seed, 600, 50, 600, spec["run_timeout"], ex, workers=16, write_evidence=False, quiet=True)
+                c1, s1 = engine.run_check(prop, machine, tier, seed, 600, 50, 600, _rt(spec, tier), ex, workers=1, write_evidence=False, quiet=True)
+                c2, s2 = engine.run_check(prop, machine, tier, seed, 600, 50, 600, _rt(spec, tier), ex, workers=16, write_evidence=False, quiet=True)
                 if s1["digest"] != s2["digest"] or c1 != c2:
                     print(f"SELFTEST-FAIL worker-count independence {prop}/{tier}: {s1['digest']} vs {s2['digest']}")
                     ok = False
